@@ -55,7 +55,7 @@ PROPS["C11"] = dict(
 NOT_APPLICABLE = {}
 
 # hook commits in /repo (guard: cargo feature `verif`)
-HOOK_COMMITS = ["a7bbd44 (bft: read-only replica observer)", "bc9722d (network: facade over crate-private items)"]
+HOOK_COMMITS = ["a7bbd44 (bft: read-only replica observer)", "bc9722d (network: facade over crate-private items)", "a1b1679 (network facade: raw gossip peer)"]
 
 PROPS["C04"] = dict(
     title="Certificates are accepted exactly when genuinely backed by a quorum",
@@ -268,10 +268,10 @@ PROPS["C08"] = dict(
     "duplicated) to the real EngineManager/EngineManagerRunner over a harness EngineInterface whose persistence is immediate / stalled for whole phases (far beyond the 100-block "
     "cache) / failing / jumping ahead through a side channel / pruned, over 2-4 manager incarnations per case, on current-thread and multi-thread runtimes. Checked: every block "
     "handed to storage follows the previous hand-off or the durable head, is one of the verified blocks, one payload per number; persisted within queued, neither range shrinks; any "
-    "number inside the queued range reads back (same payload forever) unless pruned meanwhile; an invalid block is never acknowledged; the whole chain is durable at quiescence.",
+    "number inside the queued range reads back (same payload forever) unless pruned meanwhile; an invalid block is never acknowledged; the whole chain is durable at quiescence. (node-gossip) A real node (testonly::Instance: production Network runner, block fetcher, fetch queue, gossip run_stream, validator-network dialler over a real EngineManager with an empty store) is surrounded by 2-4 raw gossip peers that announce ranges of a certified chain, answer get_block honestly or with lies (wrong number, altered payload, broken certificate, nothing, no answer), reconnect after being dropped and push genuine / forged / non-member address announcements pointing at harness listeners; here: every block the node stores is read back and compared with the certified chain.",
     assumptions=["the harness EngineInterface (storage) is the trusted base", "held on the generated interleavings only"],
-    stages=[dict(name="engine-stress", flavour="release", crate="eng")],
-    floors={"quick": {"queue_next_block_calls": 5000, "read_backs": 20000, "max_queued_minus_persisted": 101, "side_channel_jumps": 10, "prunes": 10, "storage_failures_injected": 10, "manager_incarnations": 100, "accepted_fork": 50},
+    stages=[dict(name="engine-stress", flavour="release", crate="eng"), dict(name="node-gossip", flavour="release", args={"mode": "node-gossip"}, crate="net")],
+    floors={"quick": {"queue_next_block_calls": 5000, "read_backs": 20000, "max_queued_minus_persisted": 101, "side_channel_jumps": 10, "prunes": 10, "storage_failures_injected": 10, "manager_incarnations": 100, "accepted_fork": 50, "node_synced_whole_chain": 60, "lying_answers_given": 100},
             "thorough": {"queue_next_block_calls": 100000, "max_queued_minus_persisted": 101}},
 )
 
@@ -318,10 +318,10 @@ PROPS["C18"] = dict(
     "timestamps incl. negative, forged (signed by another key, address altered after signing, version raised after signing), non-members, duplicate keys inside a batch, forged entries "
     "placed after valid ones, stale-but-forged entries. After every batch: accept/reject equals the reference written from the statement, a rejected batch leaves the book identical, "
     "the book equals the reference book, every stored entry verifies under its key, belongs to a member, and per key (version, timestamp) never goes back. Order independence: four books "
-    "fed the same tie-free valid announcements in different orders and batchings must be equal.",
+    "fed the same tie-free valid announcements in different orders and batchings must be equal. (node-gossip) A real node (testonly::Instance: production Network runner, block fetcher, fetch queue, gossip run_stream, validator-network dialler over a real EngineManager with an empty store) is surrounded by 2-4 raw gossip peers that announce ranges of a certified chain, answer get_block honestly or with lies (wrong number, altered payload, broken certificate, nothing, no answer), reconnect after being dropped and push genuine / forged / non-member address announcements pointing at harness listeners; here: every address the node dials (TCP accept on the announced listener) and every announcement it gossips on must be genuinely signed by a committee member, and per validator the dialled address only moves to a strictly newer announcement.",
     assumptions=["BLS signature verification is trusted", "held on the generated batches only"],
-    stages=[dict(name="address-book", flavour="release", **NET)],
-    floors={"quick": {"batches_accepted": 1000, "batches_rejected": 1000, "batches_with_duplicate_key": 300, "entries_forged-signature-by-other-key": 500, "entries_non-member": 500, "order_independence_cases": 300, "stored_entries_checked": 5000},
+    stages=[dict(name="address-book", flavour="release", **NET), dict(name="node-gossip", flavour="release", args={"mode": "node-gossip"}, crate="net")],
+    floors={"quick": {"batches_accepted": 1000, "batches_rejected": 1000, "batches_with_duplicate_key": 300, "entries_forged-signature-by-other-key": 500, "entries_non-member": 500, "order_independence_cases": 300, "stored_entries_checked": 5000, "dials_observed": 100, "address_entries_gossiped_by_the_node": 500},
             "thorough": {"batches_accepted": 50000}},
 )
 
@@ -334,10 +334,10 @@ PROPS["C19"] = dict(
     "The event log is checked per block: one holder at a time; the accepting peer had announced the block; no lower block was waiting during the whole accept call; a request returns Ok "
     "only after a success and Canceled only if its requester gave up; a failed hand-out is offered again; at the end every remaining request returns (a virtual-time deadlock is a lost "
     "request). Before that phase the deterministic scenarios wait for quiescence (event log unchanged for 100 scheduler rounds) and check that the lowest requested block is not one an "
-    "idle peer (inside accept_block) has announced: such a request is starving (lost wake-up), not waiting. 75 % of the scenarios run on a deterministic current-thread runtime, 25 % on 4 worker threads.",
+    "idle peer (inside accept_block) has announced: such a request is starving (lost wake-up), not waiting. 75 % of the scenarios run on a deterministic current-thread runtime, 25 % on 4 worker threads. (node-gossip) A real node (testonly::Instance: production Network runner, block fetcher, fetch queue, gossip run_stream, validator-network dialler over a real EngineManager with an empty store) is surrounded by 2-4 raw gossip peers that announce ranges of a certified chain, answer get_block honestly or with lies (wrong number, altered payload, broken certificate, nothing, no answer), reconnect after being dropped and push genuine / forged / non-member address announcements pointing at harness listeners; here: every get_block request observed at a peer must be for a block inside a range that peer announced on that very connection, and with one honest peer announcing everything the node must end up with the whole chain (if it stops asking for 20 s while an honest peer is connected and blocks are missing, a request was lost; a slow run is inconclusive).",
     assumptions=["concurrent requests for the same number are documented as unsupported and never issued", "held on the generated interleavings only"],
-    stages=[dict(name="fetch-queue", flavour="release", **NET)],
-    floors={"quick": {"accepts_checked": 20000, "failed_requests_accepted_again": 5000, "requests_cancelled": 2000, "requests_completed": 15000, "scenarios_multi_thread": 300, "quiescence_probes": 5000},
+    stages=[dict(name="fetch-queue", flavour="release", **NET), dict(name="node-gossip", flavour="release", args={"mode": "node-gossip"}, crate="net")],
+    floors={"quick": {"accepts_checked": 20000, "failed_requests_accepted_again": 5000, "requests_cancelled": 2000, "requests_completed": 15000, "scenarios_multi_thread": 300, "quiescence_probes": 5000, "get_block_requests_observed_at_peers": 2000, "node_synced_whole_chain": 60, "peer_reconnections_after_a_disconnect": 50},
             "thorough": {"accepts_checked": 500000}},
 )
 
